@@ -57,10 +57,11 @@ type Exec struct {
 	entrySt     *State // state right after the preconditions were assumed (for covers)
 	usedExterns map[string]bool
 	usedRelies  map[string]bool
+	paramVals   map[string][]*Val
 }
 
 func newExec(ld *Loaded) *Exec {
-	return &Exec{ld: ld, ct: ld.ct, tags: map[string]int{}, preludeSeen: map[string]bool{}, loops: map[*ssa.Function]*loopInfo{}, maxPaths: 4000, oblCount: map[string]int{}, usedExterns: map[string]bool{}, usedRelies: map[string]bool{}}
+	return &Exec{ld: ld, ct: ld.ct, tags: map[string]int{}, preludeSeen: map[string]bool{}, loops: map[*ssa.Function]*loopInfo{}, maxPaths: 4000, oblCount: map[string]int{}, usedExterns: map[string]bool{}, usedRelies: map[string]bool{}, paramVals: map[string][]*Val{}}
 }
 
 func (ex *Exec) fail(f string, a ...any) {
@@ -719,6 +720,7 @@ func (ex *Exec) verifyFunc(fn *ssa.Function, c *Contract) {
 		v := ex.freshVal(st, "arg."+names[i], p.Type())
 		fr.vals[p] = v
 		vars[names[i]] = v
+		ex.paramVals[c.Key] = append(ex.paramVals[c.Key], v)
 		if i == 0 && fn.Signature.Recv() != nil {
 			if _, isPtr := p.Type().Underlying().(*types.Pointer); isPtr {
 				st.assume(app(SBool, ">", v.T, tZero))
@@ -829,6 +831,11 @@ func (ex *Exec) checkExit(st *State, results []*Val) {
 		}
 	}
 	for i, e := range c.Ensures {
+		if e.Kind == "defines" {
+			// functional abstraction of a pure deterministic function: assumed at call sites, not checked here
+			ex.usedExterns["determinism of "+c.Key+": "+e.Src] = true
+			continue
+		}
 		ex.obligeClause(st, env, "ensures", clauseLabel(e, i), e, ex.clauseTags(e, c.Tags), token.NoPos)
 	}
 	ex.checkFrame(st, c, env)
